@@ -754,20 +754,27 @@ func ruleByNesting(r *Run) {
 	var nonNil *ssa.BinOp
 	var nn bool
 	var okv ssa.Value
-	for b := range loop.Blocks {
-		for _, in := range b.Instrs {
-			switch x := in.(type) {
-			case *ssa.BinOp:
-				if v, t, ok := nilCheck(x); ok {
-					if f, base, ok := loadOfField(v); ok && f == "by" && base == ssa.Value(fn.Params[0]) {
+	isAggBy := func(v ssa.Value) bool {
+		f, base, ok := loadOfField(v)
+		return ok && f == "by" && typeKey(base.Type()) == "aggregatedLabels"
+	}
+	for _, gf := range funcGroup(fn) {
+		for _, b := range gf.Blocks {
+			if gf == fn && !loop.Blocks[b] {
+				continue
+			}
+			for _, in := range b.Instrs {
+				switch x := in.(type) {
+				case *ssa.BinOp:
+					if v, t, ok := nilCheck(x); ok && isAggBy(v) {
 						nonNil, nn = x, t
 					}
-				}
-			case *ssa.Lookup:
-				if f, base, ok := loadOfField(x.X); ok && f == "by" && base == ssa.Value(fn.Params[0]) && x.CommaOk {
-					for _, ref := range *x.Referrers() {
-						if e, ok := ref.(*ssa.Extract); ok && e.Index == 1 {
-							okv = e
+				case *ssa.Lookup:
+					if isAggBy(x.X) && x.CommaOk {
+						for _, ref := range *x.Referrers() {
+							if e, ok := ref.(*ssa.Extract); ok && e.Index == 1 {
+								okv = e
+							}
 						}
 					}
 				}
@@ -779,10 +786,13 @@ func ruleByNesting(r *Run) {
 		o.Fail(r.pos(fn.Pos()), "By does not consult the receiver's by-set: a nested by() can re-expose labels an inner aggregation removed")
 	} else {
 		for _, c := range []struct{ has, in, want bool }{{false, false, true}, {true, false, false}, {true, true, true}} {
-			w := &feWalker{Fn: fn, Assume: map[ssa.Value]constant.Value{nonNil: constant.MakeBool(c.has == nn), okv: constant.MakeBool(c.in)}}
+			w := &feWalker{Fn: fn, Assume: map[ssa.Value]constant.Value{nonNil: constant.MakeBool(c.has == nn), okv: constant.MakeBool(c.in)}, Inline: inlineHelpers(fn)}
 			ins := false
 			for _, e := range w.RunFrom(loop.Body, loop.Header) {
 				for _, b := range e.State.trail {
+					if b.Parent() != fn {
+						continue // blocks of an inlined helper
+					}
 					if !loop.Blocks[b] {
 						break
 					}
